@@ -274,6 +274,29 @@ def run_case(case, rec):
     last = _cur.get("last")
     if last is None:
         return
+    if f["knotted"] and comp <= 7 and int(core.chash(case)[6:8], 16) % 4 == 0:
+        # the structure read from a dot-bracket text that uses the LETTER brackets (first-come-first-served levels raised
+        # by 3 to 9: the alphabet runs ( [ { < A B C D E ...): the list must be that of the structure written
+        from rnapolis import common
+
+        fl = o2d.fcfs_levels(f["reg"])
+        for up in (3, 6, 9):
+            lev = [l + up for l in fl]
+            if max(lev) >= 29:
+                continue
+            st = ["."] * n
+            opening, closing = "([{<ABCDEFGHIJKLMNOPQRSTUVWXYZ", ")]}>abcdefghijklmnopqrstuvwxyz"
+            for stem, l in zip(f["stems"], lev):
+                for i_, j_ in stem:
+                    st[i_ - 1], st[j_ - 1] = opening[l], closing[l]
+            text = "".join(st)
+            try:
+                res = common.BpSeq.from_dotbracket(common.DotBracket.from_string(f["seq"], text)).all_dot_brackets
+            except Exception as e:
+                rec.violation("text.no-crash", {"notation": text, "exception": repr(e)[:200]}, mechanism=f"crash:{type(e).__name__}:letter-brackets")
+                continue
+            got = {_levels(f, getattr(d, "structure", "")) for d in res}
+            rec.check("text.list-is-the-list-of-the-structure-written", got == last[1], lambda: {"layout": "dot-bracket with letter brackets", "notation": text, "pairs": pairs, "got": [d.structure for d in res][:6], "want-count": len(last[1])})
     if f["knotted"] and comp <= 7 and int(core.chash(case)[4:6], 16) % 5 == 0:
         # the structure read from its BPSEQ text in the layouts other programs write: the list must be that of the
         # structure written (judged against the original's enumeration)
